@@ -101,10 +101,22 @@ def gen_case(rng, max_o, max_s, max_f, single=False):
     return {"S": S, "O": O, "costs": c}
 
 
+def gen_biased(rng, max_o, max_s, max_f):
+    """inputs on which the labelled solvers have something to decide: families gained inside the tree, nested
+    chains (c03.rand_case with clade families), several compatible root orders, transfers forbidden half of the time"""
+    from . import c03
+    c = c03.rand_case(rng, max_o, max_s, max_f, chain=0.5, clade=0.8)
+    c.pop("prime", None)
+    if rng.random() < 0.5:
+        c["costs"] = dict(c["costs"], hgt=R.INF)
+    return c
+
+
 def batches(ctx):
     rng = ctx.rng
     quick = ctx.quick()
     cases = [gen_case(rng, 5, 4 if i % 2 else 3, 3, single=(i % 5 == 0)) for i in range(1600 if quick else 12000)]
+    cases += [gen_biased(rng, 7, 4, 3) for _ in range(400 if quick else 4000)]
     ctx.dist["seven"] = {"cases": len(cases), "single_family": sum(1 for i in range(len(cases)) if i % 5 == 0),
                          "infinite_hgt": sum(1 for c in cases if c["costs"]["hgt"] == R.INF)}
     yield Batch(
@@ -129,6 +141,8 @@ def extra(ctx):
     rng = ctx.rng
     n = 240 if ctx.quick() else 3000
     cases = [gen_case(rng, 8 if ctx.quick() else 10, 8, 3 if ctx.quick() else 4, single=(i % 3 == 0)) for i in range(n)]
+    cases += [gen_biased(rng, 8, 5, 3) for _ in range(4 * n)]
+    n = len(cases)
 
     class B:
         pass
@@ -145,6 +159,34 @@ def extra(ctx):
             bad += 1
             ctx.findings.append(Finding("relations_big", case, v, "(relations of the property)", False, why))
     ctx.notes.append(f"relations evaluated on {n} larger inputs (up to 8-10 object leaves, 8 species leaves; every third single-family), {bad} failures")
+
+
+def search(ctx):
+    """a tie is broken but no relation fails yet: the relations on fresh biased inputs, in parallel, for a time budget"""
+    import time
+    from ..core import run_impl
+    rng = ctx.rng
+    t0 = time.time()
+    budget = 150 if ctx.quick() else 900
+    n = 0
+    while time.time() - t0 < budget:
+        cases = [gen_biased(rng, 8, 5, 4) if i % 4 else gen_case(rng, 8, 6, 3, single=True) for i in range(640)]
+
+        class B:
+            pass
+        b = B()
+        b.cases, b.impl, b.parallel = cases, _seven_big, True
+        for case, v in zip(cases, run_impl(b)):
+            n += 1
+            ctx.evaluations += 1
+            ok, why = relations(case, v)
+            if ok and len(v) == 7 and v[6] != v[1]:
+                ok, why = False, f"exhaustive minimum {v[6]} differs from the DTL minimum {v[1]}"
+            if not ok:
+                ctx.notes.append(f"failing-input search: violation found after {n} fresh inputs")
+                return Finding("relations_big", case, v, "(relations of the property)", False, why)
+    ctx.notes.append(f"failing-input search: {n} fresh inputs, none violates a relation")
+    return None
 
 
 def known_signature(f, kf):
